@@ -236,6 +236,18 @@ pub fn run(tier: &str, seed: u64, out: &mut Out) {
     let all_outs = output_subsets();
     run_special(tier, &mut rng, out);
     let int_sts = [UINT8, INT16, UINT32, INT32, UINT64, INT64];
+    // broadcasting with public/private mixing (promotion of public operands, planner rules)
+    let n_mix = match tier { "thorough" => 180, "search" => 450, _ => 18 };
+    let mixed = [vec![IOStatus::Party(0), IOStatus::Public], vec![IOStatus::Public, IOStatus::Party(1)], vec![IOStatus::Shared, IOStatus::Public], vec![IOStatus::Public, IOStatus::Shared], vec![IOStatus::Party(2), IOStatus::Party(0)]];
+    for i in 0..n_mix {
+        let st = *rng.pick(&int_sts);
+        let p = crate::c01::broadcast_mix_program(&mut rng, st, i * 7 + 3);
+        let owners = mixed[i % 5].clone();
+        let outs = all_outs[(i * 3 + 1) % 8].clone();
+        let (mname, mode) = modes[i % 3].clone();
+        out.stat("stream:broadcast-mix");
+        run_program(&p, &owners, &outs, mname, mode, &mut rng, out, "exec3-broadcast-mix", 1, false);
+    }
     for i in 0..(n_frag + n_wide) {
         let wide = i >= n_frag;
         let st = if i % 7 == 6 { BIT } else { *rng.pick(&int_sts) };
